@@ -158,8 +158,12 @@ def sibling_constants(model: Model, run: Run) -> None:
                 out.append((type(n.ops[0]).__name__, const_int(n.comparators[0]), n))
         return out
 
+    # the same bit operation has an arithmetic spelling: x % 2**k is x & (2**k - 1), x // 2**k is x >> k, x * 2**k is x << k
+    ARITH = {ast.BitAnd: (ast.Mod, lambda c: c - 1), ast.RShift: (ast.FloorDiv, lambda c: c.bit_length() - 1), ast.LShift: (ast.Mult, lambda c: c.bit_length() - 1)}
+
     def binops(fi, optype, left_pred=lambda e: True):
         out = []
+        alt = ARITH.get(optype)
         for n in ast.walk(fi.node):
             if isinstance(n, (ast.BinOp, ast.AugAssign)) and isinstance(n.op, optype):
                 rhs = n.right if isinstance(n, ast.BinOp) else n.value
@@ -167,6 +171,12 @@ def sibling_constants(model: Model, run: Run) -> None:
                 c = const_int(rhs)
                 if c is not None and left_pred(lhs):
                     out.append((c, n))
+            elif alt is not None and isinstance(n, (ast.BinOp, ast.AugAssign)) and isinstance(n.op, alt[0]):
+                rhs = n.right if isinstance(n, ast.BinOp) else n.value
+                lhs = n.left if isinstance(n, ast.BinOp) else n.target
+                c = const_int(rhs)
+                if c is not None and c >= 2 and c & (c - 1) == 0 and left_pred(lhs):
+                    out.append((alt[1](c), n))
         return out
 
     def ob(rule, ok, what, where_node, fi, sample):
@@ -209,15 +219,20 @@ def sibling_constants(model: Model, run: Run) -> None:
                    not any(k.arg == "signed" and isinstance(k.value, ast.Constant) and k.value.value for k in n.keywords)]
     w_tobytes = [n for n in ast.walk(w.node) if isinstance(n, ast.Call) and isinstance(n.func, ast.Attribute) and n.func.attr == "to_bytes" and
                  any(isinstance(a, ast.Constant) and a.value == "big" for a in list(n.args) + [k.value for k in n.keywords])]
+    rsh8 = rsh8 or [n for c, n in binops(r, ast.LShift) if c == 8]
     ok = ((bool(wmask) and bool(wsh)) or bool(w_tobytes)) and (bool(rsh8) or bool(r_frombytes))
     ob("S2-length-octet-width", ok, "writer/reader disagree on 8 bits per length octet", w.node, w, {"writer_mask255": bool(wmask), "writer_shift8": bool(wsh), "reader_shift8": bool(rsh8)})
     # S3: class / constructed bit positions
-    wcls = [c for c, n in binops(w, ast.LShift) if c == 6] + [c for c, n in binops(w, ast.Mult) if c == 64]
-    wcon = [c for c, n in binops(w, ast.LShift) if c == 5] + [c for c, n in binops(w, ast.Mult) if c == 32] + \
+    wcls = [c for c, n in binops(w, ast.LShift) if c == 6]
+    wcon = [c for c, n in binops(w, ast.LShift) if c == 5] + \
            [32 for n in ast.walk(w.node) if isinstance(n, ast.IfExp) and const_int(n.body) == 32 and const_int(n.orelse) == 0]
     rcls = [c for c, n in binops(r, ast.BitAnd) if c == 192]
-    rclsh = [c for c, n in binops(r, ast.RShift) if c == 6] + [c for c, n in binops(r, ast.FloorDiv) if c == 64]
+    rclsh = [c for c, n in binops(r, ast.RShift) if c == 6]
     rcon = [c for c, n in binops(r, ast.BitAnd) if c == 32]
+    # on a value known to be one octet the class is the octet shifted right by 6 (masking with 0xC0 first changes nothing), and
+    # the constructed bit may be taken as bit 0 of the low six bits shifted right by 5
+    rcls = rcls or rclsh
+    rcon = rcon or ([c for c, n in binops(r, ast.RShift) if c == 5] and [c for c, n in binops(r, ast.BitAnd) if c in (63, 1)])
     ok = bool(wcls) and bool(wcon) and bool(rcls) and bool(rclsh) and bool(rcon)
     ob("S3-identifier-bit-fields", ok, "writer shifts (class<<6, constructed<<5) and reader masks (0xC0>>6, 0x20) do not agree", w.node, w,
        {"w_class_shift6": bool(wcls), "w_constructed_shift5": bool(wcon), "r_class_mask": bool(rcls), "r_class_shift": bool(rclsh), "r_constructed_mask": bool(rcon)})
